@@ -481,6 +481,25 @@ def generate(repo):
     defstmt("unset_inert", loop_body(model, consts, "unset_inert_moles", ["inert_moles"]), "unset_inert_moles(): loop body")
     defstmt("equal_body", whole_body(util, consts, "equal"), "equal(a, b, eps)")
 
+    # full build (setup_pure_phases) versus reuse of the equation system (quick_setup): the PP unknown's fields
+    t = prep.toks
+    lo, hi = cp.find_function(t, "quick_setup")
+    brs = find_type_branches(t, lo, hi, "PP")
+    if len(brs) != 1:
+        raise Refuse("quick_setup: expected exactly one `if (x[i]->type == PP)` branch, found %d" % len(brs))
+    qs = parse_at(t, brs[0], consts)
+    st = loop_body(prep, consts, "setup_pure_phases", ["Get_si", "("])
+    defstmt("quick_pp", qs, "quick_setup(): PP row (model reused: values refreshed from the assemblage component)")
+    defstmt("setup_pp", st, "setup_pure_phases(): loop body (model built)")
+    for nm, stm in (("quick_comp", qs), ("setup_comp", st)):
+        av = []
+        assigned_vars(stm, av)
+        src = sorted(set(e[1][:-len(".moles")] for v, e in av if v == "x.moles" and e[0] == "var" and e[1].endswith(".moles")))
+        if len(src) != 1:
+            raise Refuse("%s: cannot identify the component the amount of the PP unknown is read from" % nm)
+        w('Definition %s : string := "%s".  (* the assemblage component the PP unknown is filled from *)' % (nm, src[0]))
+    w("")
+
     for k in ("TRUE", "FALSE", "OK", "ERROR", "CONVERGED"):
         w("Definition c_%s : Q := %s.  (* global_structures.h *)" % (k, cp.coq_q(consts[k][1])))
     ic = init_consts(repo, consts)
